@@ -115,6 +115,24 @@ def main():
                 h["id"] = "fault-%s-%d" % (call, k)
                 hists.append(h)
 
+        # targeted: the first and second failing call of each kind on each class of queue object, and failures inside
+        # the qmail-queue run that queues a bounce
+        for obj in ("info", "local", "remote", "bounce", "todo", "mess"):
+            for call in ("open", "read", "write", "fsync", "unlink", "stat"):
+                for k in (1, 2):
+                    fi += 1
+                    h = reference_history(4000 + fi)
+                    h["fault"] = {"role": "qmail-send", "call": call, "k": k, "what": "fail %d" % errno.EIO, "obj": obj}
+                    h["id"] = "fault-%s-%s-%d" % (call, obj, k)
+                    hists.append(h)
+        for call, ks in (("open", (1, 2)), ("write", (1, 2)), ("fsync", (1, 2)), ("link", (1, 2)), ("read", (1, 3))):
+            for k in ks:
+                fi += 1
+                h = reference_history(5000 + fi)
+                h["fault"] = {"role": "send:qmail-queue", "call": call, "k": k, "what": "fail %d" % errno.ENOSPC}
+                h["id"] = "fault-bounceqq-%s-%d" % (call, k)
+                hists.append(h)
+
     runs = qsengine.run_histories(ck, tree, hists)
     bad, vres = qsengine.judge(ck, runs)
     ck.add_tlc("QSendTrace", vres)
